@@ -70,6 +70,38 @@ func (s *Sock) Deliver(chunk []byte, d time.Duration) error {
 	}
 }
 
+// DeliverUntil is Deliver that gives up as soon as stopped() reports true (the
+// reader has finished and will not take any more bytes). It returns false in
+// that case.
+func (s *Sock) DeliverUntil(chunk []byte, d time.Duration, stopped func() bool) (bool, error) {
+	if len(chunk) == 0 {
+		return true, nil
+	}
+	if stopped() {
+		return false, nil
+	}
+	if _, err := s.peer.Write(chunk); err != nil {
+		return false, nil // the reader closed its end
+	}
+	deadline := time.Now().Add(d)
+	for {
+		n, err := unix.IoctlGetInt(s.inq, unix.TIOCINQ)
+		if err != nil {
+			return false, err
+		}
+		if n == 0 {
+			return true, nil
+		}
+		if stopped() {
+			return false, nil
+		}
+		if time.Now().After(deadline) {
+			return false, fmt.Errorf("vconn: reader did not drain %d bytes within %v", n, d)
+		}
+		time.Sleep(20 * time.Microsecond)
+	}
+}
+
 // Write writes without waiting.
 func (s *Sock) Write(b []byte) (int, error) { return s.peer.Write(b) }
 
